@@ -1092,6 +1092,8 @@ func ruleLock6(c *Ctx) {
 			}
 			if why, ok := allowedBy[top]; ok {
 				c.Ok(key, c.Pos(k), why)
+			} else if ok, _ := calledOnlyFrom(p, fn, func(t string) bool { _, is := allowedBy[t]; return is }); ok {
+				c.Ok(key, c.Pos(k), "helper every caller of which (recursively) is one of the permitted functions")
 			} else {
 				c.Bad(key, c.Pos(k), short+" ends the life of a handler (releases its lock / swaps its temp file); it may be called only from the commit / rollback / release functions and from creators' error paths — a call here releases the lock while the transaction still relies on it (lost update) or commits half a transaction")
 			}
